@@ -331,7 +331,7 @@ func packetSx(p stanza.Packet) Sx {
 func runRecv(in recvIn) Sx {
 	if in.WS {
 		o := runRecvWS(in)
-		if len(o.L) != 6 {
+		if len(o.L) != 7 {
 			return o
 		}
 		// same shape as the stub observation: answers in order, then the loss reported, then the loop end
@@ -339,10 +339,15 @@ func runRecv(in recvIn) Sx {
 		for k := int64(0); k < o.L[3].Z; k++ {
 			sync = append(sync, L(Z(4)))
 		}
+		// the keepalive quit channel: closed when the Disconnected handler started (shown before the event), or
+		// only when the loop had returned
+		if o.L[6].Z == 1 {
+			sync = append(sync, L(Z(9)))
+		}
 		for k := int64(0); k < o.L[4].Z; k++ {
 			sync = append(sync, L(Z(5), o.L[5]))
 		}
-		if o.L[2].Z == 1 {
+		if o.L[6].Z != 1 && o.L[2].Z == 1 {
 			sync = append(sync, L(Z(9)))
 		}
 		return L(LS(sync), o.L[0], Z(0))
@@ -365,10 +370,25 @@ func runRecv(in recvIn) Sx {
 		}
 		lg.mu.Unlock()
 	})
+	quit := make(chan struct{})
+	quitLogged := false // (9) already in the log: the quit channel was found closed when the Disconnected handler started
 	errH := func(err error) { lg.addSync(L(Z(4))) }
 	evH := func(e xmpp.Event) error {
 		switch xmpp.VerifEventState(e) {
 		case xmpp.StateDisconnected:
+			if !in.Component {
+				select {
+				case <-quit:
+					lg.mu.Lock()
+					first := !quitLogged
+					quitLogged = true
+					lg.mu.Unlock()
+					if first {
+						lg.addSync(L(Z(9)))
+					}
+				default:
+				}
+			}
 			lg.addSync(L(Z(5), Z(int64(e.SMState.Inbound))))
 		case xmpp.StateStreamError:
 			lg.addSync(L(Z(6)))
@@ -396,7 +416,6 @@ func runRecv(in recvIn) Sx {
 	}
 	st.mu.Unlock()
 	done := make(chan struct{})
-	quit := make(chan struct{})
 	if in.Component {
 		c, _ := xmpp.NewComponent(xmpp.ComponentOptions{Domain: "comp.localhost", Secret: "s"}, router, errH)
 		c.SetHandler(evH)
@@ -428,9 +447,14 @@ func runRecv(in recvIn) Sx {
 			lg.recvG = goid()
 			lg.mu.Unlock()
 			xmpp.VerifRecv(c, quit)
+			lg.mu.Lock()
+			logged := quitLogged
+			lg.mu.Unlock()
 			select {
 			case <-quit:
-				lg.addSync(L(Z(9)))
+				if !logged {
+					lg.addSync(L(Z(9)))
+				}
 			default:
 				lg.addSync(L(Z(90))) // returned without closing keepaliveQuit
 			}
@@ -654,11 +678,18 @@ func runRecvWS(in recvIn) Sx {
 	if err != nil {
 		return L(SBytes("newclient-failed"))
 	}
+	quitKA := make(chan struct{})
+	quitBefore := false
 	c.SetHandler(func(e xmpp.Event) error {
 		if xmpp.VerifEventState(e) == xmpp.StateDisconnected {
 			lg.mu.Lock()
 			ndisc++
 			discInb = int64(e.SMState.Inbound)
+			select {
+			case <-quitKA:
+				quitBefore = true
+			default:
+			}
 			lg.mu.Unlock()
 		}
 		return nil
@@ -670,7 +701,6 @@ func runRecvWS(in recvIn) Sx {
 	}
 	xmpp.VerifSetSession(c, sm)
 	done := make(chan struct{})
-	quitKA := make(chan struct{})
 	if in.PeerCut {
 		// as Client.Connect does: keepalive and receiver share the quit channel
 		go xmpp.VerifKeepalive(tr, 4*time.Millisecond, quitKA)
@@ -741,5 +771,5 @@ func runRecvWS(in recvIn) Sx {
 	smu.Lock()
 	defer smu.Unlock()
 	async := canonAsync(lg.async, in.Items)
-	return L(LS(async), LS(answers), B(loopEnded), Zi(nerr), Zi(ndisc), Z(discInb))
+	return L(LS(async), LS(answers), B(loopEnded), Zi(nerr), Zi(ndisc), Z(discInb), B(quitBefore))
 }
